@@ -365,6 +365,18 @@ func (e *Engine) ensureInit(pkg *ssa.Package) {
 		}
 	}
 	if skipInit[pkg.Pkg.Path()] {
+		if pkg.Pkg.Path() == "time" {
+			// the two package-level pointers the parser and formatter need
+			for name, target := range map[string]string{"UTC": "utcLoc", "Local": "localLoc"} {
+				gp, _ := pkg.Members[name].(*ssa.Global)
+				gt, _ := pkg.Members[target].(*ssa.Global)
+				if gp != nil && gt != nil {
+					o := e.global(gp)
+					o.V = &Pointer{O: e.global(gt)}
+					o.snap = o.V
+				}
+			}
+		}
 		return
 	}
 	objStart, mapStart := len(e.initObjs), len(e.initMaps)
@@ -410,7 +422,7 @@ func (e *Engine) ensureInit(pkg *ssa.Package) {
 // packages whose init is not executed (their globals read as zero values);
 // anything that needs them must be stubbed.
 var skipInit = map[string]bool{
-	"runtime": true, "os": true, "syscall": true, "net": false, "time": true,
+	"runtime": true, "os": true, "syscall": true, "net": false, "time": false,
 	"reflect": true, "internal/poll": true, "internal/godebug": true,
 	"crypto/sha1": true, "crypto": true, "log": true, "fmt": true,
 	"net/http": true, "math/rand": true, "math/rand/v2": true, "crypto/rand": true,
@@ -527,6 +539,10 @@ func extendPath(p []int, i int) []int {
 func (e *Engine) goPanic(msg string) {
 	g := e.cur
 	e.lastStack = e.stack()
+	if len(e.lastStack) > 0 {
+		// shown with counterexamples: a panic that the code recovers from is otherwise invisible
+		e.ghostLog = append(e.ghostLog, "panic: "+msg+" at "+e.lastStack[0])
+	}
 	g.panicking = &PanicV{V: &Iface{T: types.Typ[types.String], V: ConcStr(msg)}, Msg: msg}
 	panic(goPanicSignal{})
 }
